@@ -422,6 +422,7 @@ func init() {
 		Stub:        []string{"net.Listener (SimListener)", "net.Conn (SimConn, re-segmenting)", "Backend/Session (SimBackend)", "clock (synctest)"},
 		Assumptions: []string{"an empty body may arrive as \"\" or as a single CRLF", "bodies contain CR only as part of CRLF, as the property states"},
 		Required:    []string{"bare_LF", "line_starting_with_dot", "embedded_end_of_data_lookalike", "no_final_newline", "producer_pauses_longer_than_CommandTimeout", "via_Client.SendMail", "rejected_then_close_twice", "exchange_broken_off_by_Server.Close", "exchange_broken_off_by_backend_panic", "exchange_broken_off_by_failing_reply_write", "exchange_broken_off_by_blocked_reply_write", "client_reports_failure_of_broken_exchange", "backend_verdict_later_than_CommandTimeout"},
+		Instr:       true,
 		QuickRuns:   150000, ThoroughRuns: 3000000,
 	})
 }
